@@ -186,6 +186,7 @@ inline std::string meta_of(const PSpec &p) {
   auto prop = [&](const std::string &k) { m += ":" + k + std::string(1, '\0'); };
   auto map = [&](const std::string &k, const std::string &v) { m += ":" + k + std::string(1, '\0') + "=" + v + std::string(1, '\0'); };
   prop("parameter");
+  if ((p.field + p.mn + (int)p.opts.size()) % 3 == 0) map("shortname", "");   // rShort(""): a property with an empty value in front of everything else
   if (kind_of(p.field) == K_BLOBI) map("blob type", "i");
   if (p.has_range) { map("min", std::to_string(p.mn)); map("max", std::to_string(p.mx)); }
   for (size_t k = 0; k < p.opts.size(); k++) map("map " + std::to_string(k), p.opts[k]);
@@ -297,7 +298,7 @@ struct App {
     blocks.back().get()[m.size()] = 0;
     return blocks.back().get();
   }
-  static std::string en_by(const char *who) { return std::string(":enabled by") + std::string(1, '\0') + "=" + who + std::string(1, '\0'); }
+  static std::string en_by(const char *who) { return std::string(":shortname") + std::string(1, '\0') + "=" + std::string(1, '\0') + ":enabled by" + std::string(1, '\0') + "=" + who + std::string(1, '\0'); }   // rShort("") in front
   explicit App(const AppSpec &s) : spec(s) {
     spec.set_mode();
     // case files written when the int arrays had 4 or 8 elements: extend their defaults to 12 by repeating the last one
